@@ -67,20 +67,60 @@ pub fn p_ibig(s: &str) -> Result<IBig, String> {
     }
 }
 
+/// Layout check applied to EVERY big integer the harness prints (C05/C17 canonical form): no
+/// leading zero word; at most two words <=> stored inline (needs the `dashu_verif` hook).
+/// A violation is appended to the printed value so that it can never agree with the model.
+fn layout_flag(ws: &[Word], info: Option<(isize, usize)>) -> &'static str {
+    if let Some(&top) = ws.last() {
+        if top == 0 {
+            return "!noncanonical(leading-zero-word)";
+        }
+    }
+    if let Some((cap, len)) = info {
+        let cap = cap.unsigned_abs();
+        if len != ws.len() {
+            return "!noncanonical(len-mismatch)";
+        }
+        if (len <= 2) != (cap <= 2) {
+            return "!noncanonical(inline-heap)";
+        }
+    }
+    ""
+}
+
+#[cfg(dashu_verif)]
+fn uinfo(x: &UBig) -> Option<(isize, usize)> {
+    Some(dashu_int::verif::ubig_repr_info(x))
+}
+#[cfg(not(dashu_verif))]
+fn uinfo(_x: &UBig) -> Option<(isize, usize)> {
+    None
+}
+#[cfg(dashu_verif)]
+fn iinfo(x: &IBig) -> Option<(isize, usize)> {
+    Some(dashu_int::verif::ibig_repr_info(x))
+}
+#[cfg(not(dashu_verif))]
+fn iinfo(_x: &IBig) -> Option<(isize, usize)> {
+    None
+}
+
 pub fn f_ubig(x: &UBig) -> String {
-    words_to_hex(x.as_words())
+    let ws = x.as_words();
+    format!("{}{}", words_to_hex(ws), layout_flag(ws, uinfo(x)))
 }
 
 pub fn f_ibig(x: &IBig) -> String {
     let (sign, ws) = x.as_sign_words();
     let h = words_to_hex(ws);
+    let flag = layout_flag(ws, iinfo(x));
     if sign == Sign::Negative && h != "0" {
-        format!("-{}", h)
+        format!("-{}{}", h, flag)
     } else if sign == Sign::Negative {
         // negative zero would be a canonical-form violation; make it visible
         "-0".to_string()
     } else {
-        h
+        format!("{}{}", h, flag)
     }
 }
 
@@ -199,6 +239,11 @@ pub fn classify_panic(msg: &str, loc: &str) -> String {
         ("precision cannot be 0 (unlimited)", "UnlimitedPrecision"),
         ("powering on negative bases", "PowNegativeBase"),
         ("the greatest common divisor is not defined between zeros", "GcdZeroZero"),
+        // rows added for C16 (group `panic`); names = Dashu.Spec.Panics.Kind.name
+        ("out of memory", "OutOfMemory"),
+        ("exponent is too large", "ExponentOverflow"),
+        ("chunk_bits > 0", "ZeroChunkBits"),
+        ("repr.digits() <= context.precision", "PrecisionExceeded"),
     ];
     for (pat, kind) in table {
         if msg.contains(pat) {
